@@ -97,6 +97,16 @@ Theorem C14_history_inhabits : forall std, std_ok std -> forall steps cur,
   Forall2 (obs_ok std) (held_at cur steps) (run_hist std cur steps).
 Proof. exact history_inhabits. Qed.
 
+(* Spellings of one value.  The serial format writes a tuple either in the shorthand {"v":"Tuple","vs"} or as the
+   general sum value with tag 0 that carries the one-row sum type (hugr-core reads the former as an alias of the
+   latter).  `general s t` rewrites every shorthand met while reading s at type t into the general form; the typing
+   judgment does not see the difference, so every theorem above holds of either spelling of what `ser` writes. *)
+Theorem C14_spelling_irrelevant : forall std s t, has_type std (general s t) t <-> has_type std s t.
+Proof. exact general_has_type. Qed.
+Theorem C14_tuple_spellings : forall std vs row t,
+  sum_rows t = Some [row] -> (has_type std (STuple vs) t <-> has_type std (SSum 0 t vs) t).
+Proof. exact tuple_spellings. Qed.
+
 Print Assumptions C14_values_inhabit_reported_type.
 Print Assumptions C14_helpers_well_typed.
 Print Assumptions C14_raw_sum_well_typed_iff.
@@ -110,3 +120,5 @@ Print Assumptions C14_same_tyb_reflects.
 Print Assumptions C14_std_ok_from_json.
 Print Assumptions C14_history_fresh.
 Print Assumptions C14_history_inhabits.
+Print Assumptions C14_spelling_irrelevant.
+Print Assumptions C14_tuple_spellings.
